@@ -110,17 +110,57 @@ def w_ghost_groups(chk):
     ok = 'group_paths.insert("".into(),0)' in src and "res.1.then_some(res.0)" in src and "FieldData::GhostData(x)" in src and "x.get_child_path_str(None)" in src
     if ok:
         return True
-    if "FieldData::GhostData(" in src and "then_some" not in src and "filter" not in src:
-        return False  # every ghost entry becomes a group member, also those without a child path
+    if 'group_paths.insert("".into(),0)' not in src and "FieldData::GhostData(" in src and re.search(r'insert\(""', src) is None:
+        return False  # the root group "" is no longer pre-seeded: a ghost without child path opens a group and is unwrapped
     return None
 
 
 def w_parent_postcondition(chk):
-    fi = chk.repo.fn(ATTR, "parameterized_parent_attr", impl="MemberAttrs")
-    finds = list(method_calls(fi.body, "find"))
-    if len(finds) != 2:
+    """Postcondition of MemberAttrs::parameterized_parent_attr: whatever it returns has child_fields = Some. Decided by evaluating the
+    accessor (std iterator semantics, pe.IterV) on every vector of <= 2 abstract #[parent] instructions {default, dedicated to the
+    queried type, dedicated elsewhere} x {with, without child fields}."""
+    import itertools
+    from ..pe import Evaluator, StructV, SymObj, Tag, ListV, explore, Unsupported, PanicReached
+    repo = chk.repo
+    fi = repo.fn(ATTR, "parameterized_parent_attr", impl="MemberAttrs")
+    vecs = [f["name"] for f in repo.struct(ATTR, "MemberAttrs")["fields"]["fields"] if f["ty"].replace(" ", "").startswith("Vec<")]
+
+    def elem(cls, cf, i):
+        ct = Tag("None", [], "Option") if cls == "N" else Tag("Some", [cls], "Option")
+        return StructV("ParentAttr", {"container_ty": ct, "child_fields": Tag("Some", [ListV([])], "Option") if cf else Tag("None", [], "Option"), "_id": i, "_cf": cf},
+                       rest=SymObj("instr", ("named", "?")))
+
+    def mk():
+        ev = Evaluator(repo, IMPL_FILES)
+        ev.concrete_iters = True
+        return ev
+    try:
+        some_seen = False
+        for ln in (1, 2):
+            for combo in itertools.product([(c, f) for c in "NTU" for f in (True, False)], repeat=ln):
+                vec = [elem(c, f, i) for i, (c, f) in enumerate(combo)]
+
+                def run(ev):
+                    args = ev.sym_params(fi)
+                    args["self"] = StructV("MemberAttrs", {v: ListV(list(vec)) for v in vecs}, rest=SymObj("self", ("named", "MemberAttrs")))
+                    if "container_ty" in args:
+                        args["container_ty"] = "T"
+                    return ev.run_fn(fi, args)
+                for lf in explore(mk, run):
+                    if lf.panic or lf.unsupported:
+                        return None
+                    v = lf.value
+                    if isinstance(v, Tag) and v.name == "None":
+                        continue
+                    if isinstance(v, Tag) and v.name == "Some" and isinstance(v.args[0], StructV) and "_cf" in v.args[0].fields:
+                        some_seen = True
+                        if not v.args[0].fields["_cf"]:
+                            return False
+                        continue
+                    return None
+        return True if some_seen else None
+    except (Unsupported, PanicReached, Inconclusive, KeyError, IndexError, AttributeError):
         return None
-    return all("child_fields.is_some()" in render(f["args"][0]).replace(" ", "") for f in finds)
 
 
 def w_filter_is_some(chk):
@@ -161,6 +201,26 @@ def w_peek_then_parse(chk, fn_name, token):
     return True if token in src else None
 
 
+def w_guarded_unwrap(chk, fn_name, site_rx, required):
+    """Every path of `fn_name` on which the unwrap matching `site_rx` can fail was entered under all `required` look-ahead results
+    (atom regex -> True). Decided by partial evaluation of the function (independent of how its control flow is written)."""
+    from ..pe import explore
+    repo = chk.repo
+    fi = repo.fn(ATTR, fn_name)
+    leaves = explore(lambda: Evaluator(repo, IMPL_FILES, shallow=True), lambda ev: ev.run_fn(fi, ev.sym_params(fi)))
+    hit = 0
+    for lf in leaves:
+        if lf.unsupported:
+            return None
+        if not lf.panic or not re.search(site_rx, str(lf.panic[1]).replace(" ", "")):
+            continue
+        hit += 1
+        for rx in required:
+            if not any(re.search(rx, a.replace(" ", "")) and v is True for a, v in lf.decisions.items()):
+                return False
+    return True if hit else None
+
+
 def w_peek_member(chk):
     """peek_member(input) must imply that `parse::<Member>()` succeeds on the same stream: syn's Member::parse accepts exactly
     an Ident or an Index (unsuffixed integer literal <= u32::MAX). Sound recognisers: input.peek(Ident), a forked
@@ -194,22 +254,22 @@ def w_all(*ws):
 
 # site-key regex (+ optional root / subcase) -> (class, reason, witness)
 TABLE = [
-    (r"^<TypePath as From<syn::Path>>::from:value\.segments\.last\(\)\.unwrap\(\)", None, "G1", "syn::Path always has at least one segment (syn invariant)", None),
-    (r"^<TypePath as From<syn::Path>>::from:cl\.segments\.last_mut\(\)\.unwrap\(\)", None, "G1", "clone of a non-empty path", None),
-    (r"^try_parse_container_ident:input\.parse::<Token!\[\|\]>\(\)\.unwrap\(\)", None, "G1", "guarded by input.peek(Token![|]) on the same stream",
-     lambda chk: w_peek_then_parse(chk, "try_parse_container_ident", "ifinput.peek(Token!(|)){input.parse::<Token![|]>().unwrap()")),
-    (r"^try_parse_optional_ident:input\.parse::<Token!\[,\]>\(\)\.unwrap\(\)", None, "G1", "guarded by peek_member(input) && input.peek2(Token![,]): the member parse consumes exactly one token, then the comma is next",
-     w_all(lambda chk: w_peek_then_parse(chk, "try_parse_optional_ident", "if(peek_member(input)&&input.peek2(Token!(,))){letident=input.parse::<Member>().ok();input.parse::<Token![,]>().unwrap()"), w_peek_member)),
-    (r"^try_parse_optional_ident:fork\.parse::<Member>\(\)\.unwrap\(\)", None, "G1", "guarded by peek_member(input) on the forked stream; peek_member implies Member::parse succeeds",
-     w_all(lambda chk: w_peek_then_parse(chk, "try_parse_optional_ident", "ifpeek_member(input){letfork=input.fork();fork.parse::<Member>().unwrap()"), w_peek_member)),
-    (r"^quote_try_(from|into|into_existing)_trait:ctx\.struct_attr\.err_ty\.as_ref\(\)\.unwrap\(\)", None, "G2",
+    (r"^<TypePath as From<syn::Path>>::from:\w+\.segments\.last\(\)\.unwrap\(\)", None, "G1", "syn::Path always has at least one segment (syn invariant)", None),
+    (r"^<TypePath as From<syn::Path>>::from:\w+\.segments\.last_mut\(\)\.unwrap\(\)", None, "G1", "clone of a non-empty path", None),
+    (r"^try_parse_container_ident:\w+\.parse::<Token!\[\|\]>\(\)\.unwrap\(\)", None, "G1", "guarded by input.peek(Token![|]) on the same stream",
+     lambda chk: w_guarded_unwrap(chk, "try_parse_container_ident", r"input\.parse::<Token!\[\|\]>\(\)", [r"^input\.peek\(Token!\[\|\]\)$"])),
+    (r"^try_parse_optional_ident:\w+\.parse::<Token!\[,\]>\(\)\.unwrap\(\)", None, "G1", "guarded by peek_member(input) && input.peek2(Token![,]): the member parse consumes exactly one token, then the comma is next",
+     w_all(lambda chk: w_guarded_unwrap(chk, "try_parse_optional_ident", r"input\.parse::<Token!\[,\]>\(\)", [r"^peek_member\(input\)$", r"^input\.peek2\(Token!\[,\]\)$"]), w_peek_member)),
+    (r"^try_parse_optional_ident:\w+\.parse::<Member>\(\)\.unwrap\(\)", None, "G1", "guarded by peek_member(input) on the forked stream; peek_member implies Member::parse succeeds",
+     w_all(lambda chk: w_guarded_unwrap(chk, "try_parse_optional_ident", r"fork\.parse::<Member>\(\)", [r"^peek_member\(input\)$"]), w_peek_member)),
+    (r"^\w+:(\w+\.)+err_ty\.as_ref\(\)\.unwrap\(\)", None, "G2",
      "validation rejects fallible instructions without an error type, for all 6 fallible conversions",
      lambda chk: w_c15_class(chk, ["class[missing error type]", "validate_struct_attrs[Error type should be specified for fallible inst]", "validate_struct_attrs[fallible=*"] + [f"validate_struct_attrs[{k},True]" for k in ("FromOwned", "FromRef", "OwnedInto", "RefInto", "OwnedIntoExisting", "RefIntoExisting")])),
-    (r"^render_child_fragment:.*child_parents_attr\(&ctx\.struct_attr\.ty\)\.unwrap\(\)", "^Field", "G2", "check_child_errors: every child path of an Into conversion has a child_parents instruction",
+    (r"^\w+:.*child_parents_attr\(&?(\w+\.)*ty\)\.unwrap\(\)", "^Field", "G2", "check_child_errors: every child path of an Into conversion has a child_parents instruction",
      lambda chk: w_c15_class(chk, ["class[child without child_parents]", "check_child_errors/all-prefixes", "check_child_errors[Missing #[child_parents(...)] instruction for {}]", "validate_fields[call:check_child_errors(*"])),
-    (r"^render_child_fragment:child_parents\.find\(", "^Field", "G2", "check_child_errors: every prefix of every child path has an entry",
+    (r"^\w+:(\w+\.)*child_parents\.(iter\(\)\.)?find\(", "^Field", "G2", "check_child_errors: every prefix of every child path has an entry",
      lambda chk: w_c15_class(chk, ["class[child without child_parents]", "check_child_errors/all-prefixes", "check_child_errors[Missing '{}: [Type Path]' instruction for type {]", "validate_fields[call:check_child_errors(*"])),
-    (r"^render_parent_child_fragment:parent_child_field\.sub_path\[depth\]\.1\.as_ref\(\)\.unwrap\(\)", None, "G2", "validate_parent_attrs: nested parent fields must be typed for From conversions",
+    (r"^\w+:(\w+\.)*sub_path\[\w+\]\.1\.as_ref\(\)\.unwrap\(\)", None, "G2", "validate_parent_attrs: nested parent fields must be typed for From conversions",
      lambda chk: w_c15_class(chk, ["class[untyped nested parent]", "validate_parent_attrs[Field '{0}' should have type here, e.g. '{0}: So]", "validate[call:validate_parent_attrs(*"])),
     (r"^struct_post_init:todo!\(\)", None, "G2", "bare #[parent] on an enum variant is rejected by validation (bark_at_member_attr)", w_parent_bark),
     (r"^render_struct_line:unreachable!\('6'\)", "^Field$", "G2", "tuple field without instruction under a struct-form hint is rejected by validate_fields / validate_variant_fields (top-level hint)",
@@ -220,9 +280,9 @@ TABLE = [
      lambda chk: w_error_instrs(chk, "get_data_type_attrs", "DataTypeInstruction", "validate_error_instrs")),
     (r"^validate_member_error_instrs:unreachable!\('14'\)", None, "G3", "error_instrs only ever holds the diagnostic variants, all of which validate_member_error_instrs matches",
      lambda chk: w_error_instrs(chk, "get_member_attrs", "MemberInstruction", "validate_member_error_instrs")),
-    (r"^struct_init_block_inner:g\.child_path\.as_ref\(\)\.unwrap\(\)", None, "G3", "GhostData containers are only created for ghosts with a child path (\"\" is pre-seeded as group 0)", w_ghost_groups),
-    (r"^struct_init_block:a\.child_fields\.as_ref\(\)\.unwrap\(\)", None, "G3", "parameterized_parent_attr only returns attrs whose child_fields is Some", w_parent_postcondition),
-    (r"^validate_ghost_attrs:ghost_attr\.attr\.container_ty\.as_ref\(\)\.unwrap\(\)", None, "G3", "loop iterates a filter(.. container_ty.is_some())", w_filter_is_some),
+    (r"^struct_init_block_inner:\w+\.child_path\.as_ref\(\)\.unwrap\(\)", None, "G3", "GhostData containers are only created for ghosts with a child path (\"\" is pre-seeded as group 0)", w_ghost_groups),
+    (r"^struct_init_block:\w+\.child_fields\.as_ref\(\)\.unwrap\(\)", None, "G3", "parameterized_parent_attr only returns attrs whose child_fields is Some", w_parent_postcondition),
+    (r"^validate_ghost_attrs:\w+\.attr\.container_ty\.as_ref\(\)\.unwrap\(\)", None, "G3", "loop iterates a filter(.. container_ty.is_some())", w_filter_is_some),
 ]
 
 
@@ -282,18 +342,25 @@ def index_rules(chk, fi, s, key):
 
 
 DEPTH_SITES = {
-    r"^ChildPath::get_child_path_str:self\.child_path_str\[depth\]": "depth < len: callers pass None, or a depth produced under `depth.unwrap() < child_path_str.len() - 1` + 1, or an index from enumerate() over the same path",
-    r"^render_parent_child_fragment:parent_child_field\.sub_path\[depth\]": "guarded by `depth.unwrap() < parent_child_field.sub_path.len()` in the enclosing if",
-    r"^render_child:child_path\.child_path\[field_ctx\.1\]": "field_ctx.1 = new_depth <= len-1 by the guard in render_child_fragment / sub_path.len() < child_path.len() in render_parent_child_fragment",
+    r"^ChildPath::get_child_path_str:(\w+\.)*child_path_str\[\w+\]": "depth < len: callers pass None, or a depth produced under `depth < child_path_str.len() - 1` + 1, or an index from enumerate() over the same path",
+    r"^\w+:(\w+\.)*sub_path\[\w+\]": "guarded by `depth < parent_child_field.sub_path.len()` in the enclosing if",
+    r"^\w+:(\w+\.)*child_path\[[\w.]+\]": "the depth handed to render_child is new_depth <= len-1 by the guard in render_child_fragment / sub_path.len() < child_path.len() in render_parent_child_fragment",
 }
 
 
 def w_depth_guards(chk):
+    """Tri-state: the two recursion guards `depth is None or depth < bound` and the +1 step are present (True); a recognisably
+    wrong bound (<=, or len() without the -1 for child paths) is False; any other shape is None (not understood)."""
     repo = chk.repo
     a = render(repo.fn(EXPAND, "render_child_fragment").body).replace(" ", "")
     b = render(repo.fn(EXPAND, "render_parent_child_fragment").body).replace(" ", "")
-    return "depth.is_none()||(depth.unwrap()<(child_path.child_path_str.len()-1))" in a and "letnew_depth=depth.map_or(0,|x|(x+1))" in a and \
-        "depth.is_none()||(depth.unwrap()<parent_child_field.sub_path.len())" in b and "letnew_depth=depth.map_or(0,|x|(x+1))" in b
+    ga = re.search(r"depth\.is_none\(\)\|\|\(?depth\.unwrap\(\)<\(?child_path\.child_path_str\.len\(\)-1\)?|depth\.map_or\(true,\|(\w+)\|\(?\1<\(?child_path\.child_path_str\.len\(\)-1\)?", a)
+    gb = re.search(r"depth\.is_none\(\)\|\|\(?depth\.unwrap\(\)<parent_child_field\.sub_path\.len\(\)|depth\.map_or\(true,\|(\w+)\|\(?\1<parent_child_field\.sub_path\.len\(\)", b)
+    step = lambda t: re.search(r"depth\.map_or\(0,\|(\w+)\|\(?\1\+1\)?\)", t) is not None
+    if ga and gb and step(a) and step(b):
+        return True
+    wrong = re.search(r"depth\.unwrap\(\)<=|\|(\w+)\|\(?\1<=", a + b) or re.search(r"<\(?child_path\.child_path_str\.len\(\)\)?[^-]", a)
+    return False if wrong else None
 
 
 def r5_mir(chk):
@@ -420,7 +487,7 @@ def run_quick(chk):
                     if hit:
                         if depth_ok is None:
                             depth_ok = w_depth_guards(chk)
-                        chk.expect("R2", key, depth_ok, f, s["line"], "depth index without the bounding guard in the fragment renderers", expected=hit[0])
+                        chk.shape("R2", key, depth_ok is True, depth_ok is False, f, s["line"], what="depth index without the bounding guard in the fragment renderers", expected=hit[0])
                     else:
                         chk.bad("R2", key, f, s["line"], "index expression with no bound argument (may panic on out-of-range)", found=s["detail"])
                     continue
@@ -441,10 +508,15 @@ def run_quick(chk):
                     n = s["node"]
                     if n["last"] == "format_ident":
                         fmt = n["args"][0]["lit"]["v"] if n.get("args") and n["args"][0]["k"] == "Lit" else None
-                        chk.expect("R2", key, fmt == "f{}", f, s["line"], "format_ident! with a format that may not be a valid identifier", found=fmt)
+                        valid = isinstance(fmt, str) and re.fullmatch(r"[A-Za-z_][A-Za-z0-9_]*(\{\}[A-Za-z0-9_]*)*", fmt) is not None
+                        # a literal identifier start followed by interpolations of integers / identifiers is always an identifier
+                        chk.shape("R2", key, bool(valid), isinstance(fmt, str) and re.match(r"[0-9]", fmt) is not None, f, s["line"],
+                                  what="format_ident! whose result is not a valid identifier (starts with a digit)", found=fmt)
                     else:
                         src = n["src"].replace(" ", "")
-                        chk.expect("R2", key, src in ("#gen", "'o2o:#(#ref_lts)+*"), f, s["line"], "parse_quote! whose tokens may fail to parse at expansion time (panics)", found=n["src"][:60])
+                        # re-parsing one already-parsed lifetime node, or the fixed lifetime-bound template over lifetimes taken from the input
+                        good = re.fullmatch(r"#\w+", src) is not None and re.search(r"GenericArgument::Lifetime\(", render(fi.body)) is not None or src == "'o2o:#(#ref_lts)+*"
+                        chk.shape("R2", key, bool(good), False, f, s["line"], what="parse_quote! whose tokens may fail to parse at expansion time (panics)", found=n["src"][:60])
                     continue
                 # unwrap / panic
                 k2 = "unwrap" if s["kind"] == "unwrap" else "panic"
